@@ -40,8 +40,10 @@ def repo_clean():
     return subprocess.run(["git", "-C", "/repo", "status", "--short"], capture_output=True, text=True).stdout.strip() == ""
 
 
-def run_check(pid):
-    p = subprocess.run([os.path.join(V, "check"), pid, "quick"], capture_output=True, text=True)
+def run_check(pid, env_extra=None):
+    env = dict(os.environ)
+    env.update(env_extra or {})
+    p = subprocess.run([os.path.join(V, "check"), pid, "quick"], capture_output=True, text=True, env=env)
     return p.returncode, p.stdout
 
 
@@ -197,7 +199,7 @@ FIX_OWNERS = {
 }
 
 
-def with_patch(args, pids, label):
+def with_patch(args, pids, label, env_extra=None):
     if not repo_clean():
         print("/repo is not clean")
         return 1
@@ -208,7 +210,7 @@ def with_patch(args, pids, label):
         return 1
     try:
         for pid in pids:
-            rc, out = run_check(pid)
+            rc, out = run_check(pid, env_extra)
             n = len([line for line in out.splitlines() if line.startswith("VIOLATION")])
             print("%s: %s exit %d (%d VIOLATION lines)%s" % (label, pid, rc, n, "" if rc == 1 else "   <-- NOT DETECTED"))
             bad += 0 if rc == 1 else 1
@@ -237,9 +239,12 @@ def seeds(only=None):
         if only and name not in only:
             continue
         meta = json.load(open(os.path.join(d, "meta.json")))
+        if meta["detection"].get("missed"):
+            print("seed %s: recorded as NOT DETECTED (see DESIGN.md 13), not run" % name)
+            continue
         pids = sorted(set(re.findall(r"\bC\d\d\b", meta["detection"]["detected_by"].split("MISSED")[0]))) or [meta["property"]]
         pids = [p for p in pids if p == meta["property"]] or pids[:1]
-        bad += with_patch([os.path.join(d, "patch.diff")], pids, "seed " + name)
+        bad += with_patch([os.path.join(d, "patch.diff")], pids, "seed " + name, meta["detection"].get("env"))
     return bad
 
 
